@@ -139,7 +139,8 @@ def run(P: Program, rep: Report):
             inv = f"entries {a['entries']} are not the Entry blocks in list order {ents}"
         if isinstance(a["entries_dict"], dict) and sorted(map(str, a["entries_dict"].values())) != sorted(ents):
             inv = f"entries_dict {a['entries_dict']} does not map exactly the live entries {ents}"
-        parts = [str(x) for v in ("entries", "strings", "preambles", "comments") for x in a[v]] + [str(x) for x in a["failed_blocks"]]
+        parts = [str(x) for v in ("entries", "strings", "preambles", "comments") for x in a[v]] + \
+                [str(x[1]) if x[0] == "blk" else str(x) for x in a["failed_blocks"]]
         whole = [str(b[1]) if b[0] == "blk" else str(b) for b in blk]
         if sorted(parts) != sorted(whole):
             inv = f"the five views {sorted(parts)} do not partition the block list {sorted(whole)}"
